@@ -2,6 +2,7 @@ package main
 
 import (
 	"reflect"
+	"time"
 	"fmt"
 	"os"
 	"path/filepath"
@@ -10,6 +11,7 @@ import (
 	"unicode/utf8"
 
 	"github.com/aundis/formula"
+	"github.com/ericlagergren/decimal"
 )
 
 // dumpTables executes every finite-domain function of the implementation over its whole domain and
@@ -191,7 +193,118 @@ func dumpTables(dir string) {
 	if err := os.WriteFile(filepath.Join(dir, "ImplTables.v"), []byte(sb.String()), 0o644); err != nil {
 		panic(err)
 	}
+	dumpBuiltinSigs(dir, bt)
 }
+
+// dumpBuiltinSigs writes the builtin table of the running library - every name with the Go type of its entry, read
+// by reflection - as Coq terms of the model's signature type (Gen/ImplBuiltins.v)
+func dumpBuiltinSigs(dir string, bt map[string]interface{}) {
+	var goType func(t reflect.Type) string
+	goType = func(t reflect.Type) string {
+		switch {
+		case t == reflect.TypeOf((*decimalBigPtr)(nil)).Elem().Field(0).Type:
+			return "TDec"
+		case t == reflect.TypeOf(timeZero):
+			return "TTime"
+		}
+		switch t.Kind() {
+		case reflect.String:
+			return "TString"
+		case reflect.Bool:
+			return "TBool"
+		case reflect.Int:
+			return "(TInt GInt)"
+		case reflect.Int8:
+			return "(TInt GInt8)"
+		case reflect.Int16:
+			return "(TInt GInt16)"
+		case reflect.Int32:
+			return "(TInt GInt32)"
+		case reflect.Int64:
+			return "(TInt GInt64)"
+		case reflect.Uint:
+			return "(TInt GUint)"
+		case reflect.Uint8:
+			return "(TInt GUint8)"
+		case reflect.Uint16:
+			return "(TInt GUint16)"
+		case reflect.Uint32:
+			return "(TInt GUint32)"
+		case reflect.Uint64:
+			return "(TInt GUint64)"
+		case reflect.Uintptr:
+			return "(TInt GUintptr)"
+		case reflect.Float32:
+			return "(TFloat true)"
+		case reflect.Float64:
+			return "(TFloat false)"
+		case reflect.Interface:
+			if t.NumMethod() == 0 {
+				return "TIface"
+			}
+		case reflect.Slice:
+			return "(TSlice " + goType(t.Elem()) + ")"
+		case reflect.Map:
+			if t.Key().Kind() == reflect.String {
+				return "(TMapStr " + goType(t.Elem()) + ")"
+			}
+		}
+		return "TOther"
+	}
+	var names []string
+	for n := range bt {
+		names = append(names, n)
+	}
+	sort.Strings(names)
+	var sb strings.Builder
+	sb.WriteString("(* GENERATED on every run by /verif/harness (tables.go) from /repo's working tree. Do not edit. *)\n")
+	sb.WriteString("From Coq Require Import List ZArith Bool.\nFrom Formula Require Import Sem.Value.\nImport ListNotations.\nOpen Scope Z_scope.\n\n")
+	sb.WriteString("(* every function of the builtin table: name, signature (leading context, parameter types, variadic, number of results) *)\n")
+	sb.WriteString("Definition impl_builtin_sigs : list (list Z * gosig) :=\n  [")
+	var others []string
+	first := true
+	for _, n := range names {
+		t := reflect.TypeOf(bt[n])
+		if t == nil || t.Kind() != reflect.Func {
+			others = append(others, coqBytes([]byte(n)))
+			continue
+		}
+		ctx := false
+		var ps []string
+		for i := 0; i < t.NumIn(); i++ {
+			pt := t.In(i)
+			if i == 0 && pt.Kind() == reflect.Interface && pt.String() == "context.Context" {
+				ctx = true
+				continue
+			}
+			if t.IsVariadic() && i == t.NumIn()-1 {
+				ps = append(ps, "(TSlice "+goType(pt.Elem())+")")
+				continue
+			}
+			ps = append(ps, goType(pt))
+		}
+		if !first {
+			sb.WriteString(";\n   ")
+		}
+		first = false
+		bv := func(x bool) string {
+			if x {
+				return "true"
+			}
+			return "false"
+		}
+		fmt.Fprintf(&sb, "(%s, mkSig %s [%s] %s %d)", coqBytes([]byte(n)), bv(ctx), strings.Join(ps, "; "), bv(t.IsVariadic()), t.NumOut())
+	}
+	sb.WriteString("].\n\n(* entries of the table that are not functions *)\n")
+	fmt.Fprintf(&sb, "Definition impl_builtin_values : list (list Z) := [%s].\n", strings.Join(others, "; "))
+	if err := os.WriteFile(filepath.Join(dir, "ImplBuiltins.v"), []byte(sb.String()), 0o644); err != nil {
+		panic(err)
+	}
+}
+
+type decimalBigPtr struct{ p *decimal.Big }
+
+var timeZero time.Time
 
 func coqBytes(b []byte) string {
 	var parts []string
